@@ -247,3 +247,15 @@ package keeper
 //@ writers MemberStoreKey: Keeper.DeleteMember, Keeper.SetMember
 //@ writers SigningIDMappingStoreKey: Keeper.DeleteSigningIDMapping, Keeper.SetSigningIDMapping
 //@ writers SigningInfoStoreKey: Keeper.SetSigning
+
+// ---- read-only list getters (iterator + decode loops): results not modelled, no state written -------------------------
+// (so that a caller which uses one of them stays analysable: the list is an arbitrary well-typed value)
+//@ func (k Keeper) GetMembers
+//@ trusted
+
+// C11: the originator of a tunnel's signing request names the tunnel's own route: this chain, the tunnel id, the
+// destination CHAIN and the destination CONTRACT, each in its own field (hash(originator) prefixes the signed message)
+//@ func (k Keeper) CreateTunnelSigningRequest
+//@ may_panic calls
+//@ modifies *
+//@ assert after originator: originator == tsstypes.TunnelOriginator{ctx.ChainID(), tunnelID, destinationChainID, destinationContractAddr}
